@@ -118,6 +118,130 @@ pub fn all_frames() -> Vec<String> {
     out
 }
 
+/// What an independent description of the declared error types says about an `error` frame.
+#[derive(Debug, Clone, PartialEq)]
+pub enum Model {
+    /// recognised; the payload is the `Debug` rendering of the value it denotes
+    Yes(String),
+    /// not an error this type declares (unknown name, or parameters that do not fit the variant)
+    No,
+    /// not judged (parameters of a field-less variant that are neither absent, null nor an object;
+    /// an error name that is not a string)
+    Unjudged,
+}
+
+fn params_of(doc: &Value) -> Option<&Value> {
+    doc.get("parameters").filter(|p| !p.is_null())
+}
+
+/// Field-less variant: recognised with absent / null parameters and with any parameters object
+/// (members a receiver does not know are ignored, as everywhere in Varlink).
+fn unit_variant(doc: &Value, dbg: &str) -> Model {
+    match params_of(doc) {
+        None => Model::Yes(dbg.to_string()),
+        Some(Value::Object(_)) => Model::Yes(dbg.to_string()),
+        Some(_) => Model::Unjudged,
+    }
+}
+
+fn str_field<'v>(doc: &'v Value, name: &str) -> Option<&'v str> {
+    params_of(doc)?.as_object()?.get(name)?.as_str()
+}
+
+fn int_field(doc: &Value, name: &str) -> Option<i64> {
+    params_of(doc)?.as_object()?.get(name)?.as_i64()
+}
+
+/// The hand-written description of each error type used in this check: which names it declares and
+/// what their parameters must look like. This is what "the caller's error type recognises" means,
+/// independently of the decoder the derive macro generates.
+pub trait ErrModel {
+    fn model(name: &str, doc: &Value, raw: &str) -> Model;
+}
+
+impl ErrModel for ErrA {
+    fn model(name: &str, doc: &Value, _raw: &str) -> Model {
+        match name {
+            "org.example.Bad" => unit_variant(doc, &format!("{:?}", ErrA::Bad)),
+            "org.example.Worse" => match (int_field(doc, "code"), str_field(doc, "msg")) {
+                (Some(code), Some(msg)) => Model::Yes(format!("{:?}", ErrA::Worse { code, msg: msg.to_string() })),
+                _ => Model::No,
+            },
+            "org.example.Renamed" => {
+                let Some(key) = str_field(doc, "theKey") else { return Model::No };
+                let opt = match params_of(doc).and_then(|p| p.get("opt")) {
+                    None | Some(Value::Null) => None,
+                    Some(v) => match v.as_i64() {
+                        Some(i) => Some(i),
+                        None => return Model::No,
+                    },
+                };
+                Model::Yes(format!("{:?}", ErrA::Renamed { the_key: key.to_string(), opt }))
+            }
+            _ => Model::No,
+        }
+    }
+}
+
+impl ErrModel for ErrB<'_> {
+    fn model(name: &str, doc: &Value, raw: &str) -> Model {
+        match name {
+            "org.example.Bad" => unit_variant(doc, &format!("{:?}", ErrB::Bad)),
+            "org.example.Worse" => match (int_field(doc, "code"), str_field(doc, "msg")) {
+                // a borrowed &str cannot be filled from a JSON string written with escapes
+                (Some(_), Some(_)) if raw.contains('\\') => Model::Unjudged,
+                (Some(code), Some(msg)) => Model::Yes(format!("{:?}", ErrB::Worse { code, msg })),
+                _ => Model::No,
+            },
+            _ => Model::No,
+        }
+    }
+}
+
+impl ErrModel for ErrNone {
+    fn model(_name: &str, _doc: &Value, _raw: &str) -> Model {
+        Model::No
+    }
+}
+
+fn service_model(name: &str, doc: &Value) -> Model {
+    use zlink_core::varlink_service::Error as S;
+    let one = |field: &str, mk: &dyn Fn(String) -> S| match str_field(doc, field) {
+        Some(v) => Model::Yes(format!("{:?}", mk(v.to_string()))),
+        None => Model::No,
+    };
+    match name {
+        "org.varlink.service.InterfaceNotFound" => one("interface", &|interface| S::InterfaceNotFound { interface }),
+        "org.varlink.service.MethodNotFound" => one("method", &|method| S::MethodNotFound { method }),
+        "org.varlink.service.MethodNotImplemented" => one("method", &|method| S::MethodNotImplemented { method }),
+        "org.varlink.service.InvalidParameter" => one("parameter", &|parameter| S::InvalidParameter { parameter }),
+        "org.varlink.service.PermissionDenied" => unit_variant(doc, &format!("{:?}", S::PermissionDenied)),
+        "org.varlink.service.ExpectedMore" => unit_variant(doc, &format!("{:?}", S::ExpectedMore)),
+        _ => Model::No,
+    }
+}
+
+/// The outcome the statement demands for a frame with an `error` member, from the models alone
+/// (`None` = not judged by the models; the decoder-based reference still applies).
+pub fn model_expectation<E: ErrModel>(doc: &Value, raw: &str) -> Option<Outcome> {
+    let name = match doc.get("error") {
+        Some(Value::String(s)) => s.as_str(),
+        // an `error` member that is not a string names no error at all
+        Some(_) => return Some(Outcome::DecodeErr),
+        None => return None,
+    };
+    match service_model(name, doc) {
+        Model::Yes(d) => return Some(Outcome::Msg(format!("service-error {d}"))),
+        Model::Unjudged => return None,
+        Model::No => {}
+    }
+    match E::model(name, doc, raw) {
+        Model::Yes(d) => Some(Outcome::Msg(format!("method-error {d}"))),
+        Model::Unjudged => None,
+        Model::No => Some(Outcome::DecodeErr),
+    }
+}
+
 fn receive<'a, P, E>(frame: &[u8], via_call_method: bool, keep: &'a mut Option<Connection<SimSocket>>) -> Outcome
 where
     P: Deserialize<'a> + Debug,
@@ -148,6 +272,7 @@ fn would_succeed_without_error<'a, P: Deserialize<'a>>(stripped: &'a [u8]) -> bo
 fn check_typed<'a, P, E>(
     frame: &'a [u8],
     stripped: &'a [u8],
+    doc: &Value,
     has_error: bool,
     via: bool,
     pname: &str,
@@ -156,12 +281,34 @@ fn check_typed<'a, P, E>(
 ) -> CaseResult
 where
     P: for<'x> Deserialize<'x> + Debug,
-    E: for<'x> Deserialize<'x> + Debug,
+    E: for<'x> Deserialize<'x> + Debug + ErrModel,
 {
     stats.eval();
     let expect = ref_reply::<P, E>(frame);
     let mut keep = None;
     let got = receive::<P, E>(frame, via, &mut keep);
+    if has_error {
+        if let Some(want) = model_expectation::<E>(doc, std::str::from_utf8(frame).unwrap_or("\\")) {
+            stats.class("judged-by-declared-error-model");
+            if want != got {
+                let sig = match (&want, &got) {
+                    (_, Outcome::Msg(m)) if m.starts_with("success") => "error-reply-reported-as-success",
+                    (Outcome::Msg(_), _) => "declared-error-not-recognised",
+                    _ => "undeclared-error-recognised",
+                };
+                return Err(Fail::new(
+                    sig,
+                    format!(
+                        "receive_reply::<{pname},{ename}>{} of {}: the declared error types demand {:?}, got {:?}",
+                        if via { " (call_method)" } else { "" },
+                        String::from_utf8_lossy(frame),
+                        want,
+                        got
+                    ),
+                ));
+            }
+        }
+    }
     if has_error {
         stats.class("frame-with-error");
         if would_succeed_without_error::<P>(stripped) {
@@ -204,6 +351,7 @@ pub const E_NAMES: [&str; 3] = ["ErrA", "ErrB", "ErrNone"];
 fn check_borrowed<'a>(
     frame: &'a [u8],
     stripped: &'a [u8],
+    doc: &Value,
     has_error: bool,
     stats: &mut Stats,
 ) -> CaseResult {
@@ -217,6 +365,21 @@ fn check_borrowed<'a>(
         Some(r) => classify_reply(r),
         None => Outcome::Pending,
     };
+    if has_error {
+        if let Some(want) = model_expectation::<ErrB<'_>>(doc, std::str::from_utf8(frame).unwrap_or("\\")) {
+            if want != got {
+                return Err(Fail::new(
+                    if matches!(&want, Outcome::Msg(_)) { "declared-error-not-recognised" } else { "undeclared-error-recognised" },
+                    format!(
+                        "receive_reply::<BorrowedParams<'_>,ErrB<'_>> of {}: the declared error types demand {:?}, got {:?}",
+                        String::from_utf8_lossy(frame),
+                        want,
+                        got
+                    ),
+                ));
+            }
+        }
+    }
     if has_error && serde_json::from_slice::<Reply<BorrowedParams<'_>>>(stripped).is_ok() {
         stats.class("nontrivial:error+success-shaped");
         stats.nontrivial_hash(hash_of(&(frame, "BorrowedParams", "ErrB")));
@@ -263,7 +426,7 @@ pub fn check_frame(frame: &str, stats: &mut Stats) -> Vec<Fail> {
     macro_rules! go {
         ($p:ty, $e:ty, $pi:expr, $ei:expr) => {
             for via in [false, true] {
-                if let Err(x) = check_typed::<$p, $e>(f, s, has_error, via, P_NAMES[$pi], E_NAMES[$ei], stats) {
+                if let Err(x) = check_typed::<$p, $e>(f, s, &doc, has_error, via, P_NAMES[$pi], E_NAMES[$ei], stats) {
                     fails.push(x);
                 }
             }
@@ -277,7 +440,7 @@ pub fn check_frame(frame: &str, stats: &mut Stats) -> Vec<Fail> {
     go!(Value, ErrNone, 2, 2);
     go!(StrictParams, ErrA, 3, 0);
     go!(StrictParams, ErrNone, 3, 2);
-    if let Err(x) = check_borrowed(f, s, has_error, stats) {
+    if let Err(x) = check_borrowed(f, s, &doc, has_error, stats) {
         fails.push(x);
     }
     fails
@@ -339,7 +502,7 @@ pub fn run(ctx: &Ctx) -> i32 {
     let n = frames.len() as u64;
     // Lexical lane: the same documents spelled with escapes in member names / string values and
     // with white space between tokens.
-    let (shards, cases) = ctx.tier.pick((8, 3000), (64, 40_000));
+    let (shards, cases) = ctx.tier.pick((16, 12000), (64, 40_000));
     let frames_ref = &frames;
     let (lex_stats, lex_viol) = vcommon::drv::run_shards(
         ctx,
@@ -380,7 +543,7 @@ pub fn run(ctx: &Ctx) -> i32 {
     viol.extend(lex_viol);
     Report::new(RULE)
         .exhaustive(true)
-        .assume("'the caller's error type recognises the frame' is defined as serde_json::from_slice::<E>(frame) succeeding")
+        .assume("'the caller's error type recognises the frame' is defined twice and both definitions must agree with zlink: (a) serde_json::from_slice::<E>(frame) succeeding, (b) a hand-written description of the declared variants of the error types used here (name equals <interface>.<Variant>; parameters hold the variant's fields with the declared JSON types, unknown members ignored; field-less variants take absent / null / any object)")
         .extra("frames", json!(n))
         .finish(ctx, &stats, &viol, &[])
 }
